@@ -257,3 +257,55 @@ class call:
             vals(dxdt) == store(at_entry(vals(dxdt)), k, real(at_entry(dxdt[k])) + at_call("Model._get_args", DynSum(self._cache, D, k, _i))),
         ],
     }
+
+
+@contract("mxlpy.model:Model._get_right_hand_side")
+class get_rhs_raw:
+    # pandas variant used by the named and time-course forms: same sums as __call__
+    types = {"return": "dict[str, float]"}
+    requires = lambda self, args, var_names, cache: (
+        CacheShape(cache) and fluxes_in(cache, args) and elems(var_names) == elems(cache.var_names)
+    )
+    may_raise = (Exception,)
+    ensures = lambda self, args, var_names, cache, result: [
+        keys(result) == elems(var_names),
+        forall(
+            lambda c: implies(
+                c in elems(var_names),
+                real(vals(result)[c]) == old(StaticTotal(cache, args, c)) + old(DynTotal(cache, args, c)),
+            ),
+            "val",
+        ),
+    ]
+    modifies = lambda self, args, var_names, cache: []
+    loops = {
+        1: lambda self, dxdt, args, cache: [
+            keys(dxdt) == at_entry(keys(dxdt)),
+            dom(dxdt) == at_entry(dom(dxdt)),
+            forall(
+                lambda c: real(vals(dxdt)[c])
+                == (old(StaticTotal(cache, args, c)) if before(cache.stoich_by_cpds, c, _i) else 0.0),
+                "val",
+            ),
+        ],
+        2: lambda self, dxdt, args, cache, k: [
+            keys(dxdt) == at_entry(keys(dxdt)),
+            dom(dxdt) == at_entry(dom(dxdt)),
+            vals(dxdt) == store(at_entry(vals(dxdt)), k, real(at_entry(dxdt[k])) + old(StaticSum(cache, args, k, _i))),
+        ],
+        3: lambda self, dxdt, args, cache: [
+            keys(dxdt) == at_entry(keys(dxdt)),
+            dom(dxdt) == at_entry(dom(dxdt)),
+            forall(
+                lambda c: real(vals(dxdt)[c])
+                == old(StaticTotal(cache, args, c))
+                + (old(DynTotal(cache, args, c)) if before(cache.dyn_stoich_by_cpds, c, _i) else 0.0),
+                "val",
+            ),
+        ],
+        4: lambda self, dxdt, args, cache, k: [
+            keys(dxdt) == at_entry(keys(dxdt)),
+            dom(dxdt) == at_entry(dom(dxdt)),
+            vals(dxdt) == store(at_entry(vals(dxdt)), k, real(at_entry(dxdt[k])) + old(DynSum(cache, args, k, _i))),
+        ],
+    }
